@@ -84,7 +84,8 @@ def c05_jobs(tier):
 
 def c06_jobs(tier):
     n = scale(tier, 160000, 5000000)
-    return [job("qhist4", n, workers=16, tag=qtag(tier, "C06"), plain_pct=15)]
+    return [job("qhist4", n, workers=12, tag=qtag(tier, "C06"), plain_pct=15),
+            job("qhist4", scale(tier, 1600, 40000), workers=4, tag="large", step_cap=40000000, params={"seq_op_cap": 2000000})]
 
 
 def c07_jobs(tier):
